@@ -368,6 +368,65 @@ pub fn run(ctx: &Ctx) -> Report {
     for a in accs {
         all.merge(ID, a);
     }
+    // sibling history (after seed C02-w7-1: a memo of the last decoded line keyed on length, header and checksum
+    // characters): on a fresh thread first decode a DIFFERENT valid frame that agrees with the base in length, address,
+    // type and checksum (two data bytes swapped, or one raised and one lowered by 1), then every single substitution of a
+    // data character of the base by another hex digit or one of four other bytes; still "error or the original"
+    let mut sib_frames: Vec<(u16, u8, Vec<u8>, Vec<u8>)> = vec![];
+    for (addr, typ) in [(0x0003u16, 0u8), (0xFE12, 0), (0x0000, 4), (0x0103, 2)] {
+        for data in [vec![0x12u8, 0x34], vec![0x00, 0xFF, 0x7E], vec![1, 2, 3, 4], (0..16u8).map(|j| j.wrapping_mul(17).wrapping_add(3)).collect::<Vec<u8>>()] {
+            let n = data.len();
+            for (a, b) in [(0usize, 1usize), (0, n - 1), (n / 2, n - 1)] {
+                if a == b || data[a] == data[b] {
+                    continue;
+                }
+                let mut s = data.clone();
+                s.swap(a, b);
+                sib_frames.push((addr, typ, data.clone(), s));
+                let mut s = data.clone();
+                s[a] = s[a].wrapping_add(1);
+                s[b] = s[b].wrapping_sub(1);
+                sib_frames.push((addr, typ, data.clone(), s));
+            }
+        }
+    }
+    let accs = par_range(sib_frames.len() as u64, 1, Acc::default, |acc, i| {
+        let (addr, typ, ref data, ref sib) = sib_frames[i as usize];
+        for newline in [false, true] {
+            let wire = ref_encode(addr, typ, data, newline);
+            let sibw = ref_encode(addr, typ, sib, newline);
+            let mut damages: Vec<Vec<u8>> = vec![];
+            for k in 9..9 + 2 * data.len() {
+                for &v in b"0123456789ABCDEFabcdef:g \x00" {
+                    if v != wire[k] {
+                        let mut d = wire.clone();
+                        d[k] = v;
+                        damages.push(d);
+                    }
+                }
+            }
+            let (d2, dm2) = (data.clone(), damages.clone());
+            let results: Vec<Option<(&'static str, String, String)>> = crate::util::in_fresh_thread(move || {
+                let mut out = vec![];
+                for dmg in &dm2 {
+                    let _ = catch(|| Frame::from_bytes(&sibw).is_ok());
+                    let (_, v) = check_damaged((addr, typ, &d2), dmg, false);
+                    out.push(v);
+                }
+                out
+            });
+            acc.evals += results.len() as u64;
+            acc.outcomes.addn("after-sibling-decode", results.len() as u64);
+            for (k, v) in results.into_iter().enumerate() {
+                if let Some((clause, cl, detail)) = v {
+                    acc.violation(ID, Violation::new(clause, format!("after-sibling-decode:{}", cl), format!("after decoding a different valid frame with the same length, header and checksum on the same thread: {}", detail), json!({"kind": "sibling-history", "addr": addr, "type": typ, "data": hex(data), "sibling": hex(sib), "newline": newline, "wire": hex(&damages[k])}), (1u64 << 51) | (i << 16) | k as u64));
+                }
+            }
+        }
+    });
+    for a in accs {
+        all.merge(ID, a);
+    }
     // read path with history: every prefix (1..=6 bytes) of three valid lines is left behind by a failed read; then each
     // base line with its first byte replaced by every other value is read on the same thread
     let prefix_sources: Vec<Vec<u8>> = vec![ref_encode(0xFE00, 0, &[7, 3], true), ref_encode(0x0003, 2, &[0xFF], true), ref_encode(0x00FD, 0, &[0, 0x7F, 2], true)];
@@ -429,6 +488,18 @@ pub fn replay(_ctx: &Ctx, case: &Value) -> Result<Vec<Violation>, String> {
             check_damaged((addr, typ, &data), &dmg, false).1
         });
         return Ok(v.into_iter().map(|(c, k, d)| Violation::new(c, format!("after-earlier-decodes:{}", k), d, case.clone(), 0)).collect());
+    }
+    if case["kind"].as_str() == Some("sibling-history") {
+        let (addr, typ) = (case["addr"].as_u64().ok_or("addr")? as u16, case["type"].as_u64().ok_or("type")? as u8);
+        let data = unhex(case["data"].as_str().ok_or("data")?);
+        let sib = unhex(case["sibling"].as_str().ok_or("sibling")?);
+        let dmg = unhex(case["wire"].as_str().ok_or("wire")?);
+        let sibw = ref_encode(addr, typ, &sib, case["newline"].as_bool().unwrap_or(false));
+        let v = crate::util::in_fresh_thread(move || {
+            let _ = catch(|| Frame::from_bytes(&sibw).is_ok());
+            check_damaged((addr, typ, &data), &dmg, false).1
+        });
+        return Ok(v.into_iter().map(|(c, k, d)| Violation::new(c, format!("after-sibling-decode:{}", k), d, case.clone(), 0)).collect());
     }
     if case["kind"].as_str() == Some("read-history") {
         let d = unhex(case["data"].as_str().ok_or("data")?);
